@@ -447,7 +447,7 @@ func c16Order(tier string, seed int64, idx int, scratch string) rt.CaseResult {
 	var c rt.CaseResult
 	rt.SetWatchdogLimit(30 * time.Second)
 	rng := seqrun.Rng(seed, "C16o", idx)
-	patterns := []string{"send-before-run", "stop-stop-concurrent", "run-stop-run", "stop-before-run", "send-during-stop", "run-run-concurrent", "random", "stop-racing-runs", "restart-with-deferred", "first-deferral-racing-stop", "send-from-job-during-stop", "send-while-stop-waits", "race-for-last-slot", "run-context-cancelled-before-stop"}
+	patterns := []string{"send-before-run", "stop-stop-concurrent", "run-stop-run", "stop-before-run", "send-during-stop", "run-run-concurrent", "random", "stop-racing-runs", "restart-with-deferred", "first-deferral-racing-stop", "send-from-job-during-stop", "send-while-stop-waits", "race-for-last-slot", "run-context-cancelled-before-stop", "sched-vs-stop"}
 	pat := patterns[idx%len(patterns)]
 	e := &c16Env{pool: verif.NewPool(verif.PoolOptions{NumWorkers: 1 + rng.Intn(2), SendDuration: time.Microsecond}), t0: time.Now()}
 	fmt.Fprintf(stderrW, "C16 pattern %s\n", pat)
@@ -758,6 +758,36 @@ func c16Order(tier string, seed int64, idx int, scratch string) rt.CaseResult {
 			if len(c.Violations) > 0 {
 				return c
 			}
+		}
+	case "sched-vs-stop":
+		// scheduled events with periods of microseconds (the periodic collector of a database is
+		// such an event) while the pool is stopped and run again: a tick may fall anywhere inside
+		// Stop; nothing may panic, and after Stop has returned no scheduled job may start
+		for round := 0; round < 300; round++ {
+			if round%32 == 0 {
+				rt.Beat()
+			}
+			e.pool.Run(bg)
+			var ticks atomic.Int64
+			var lastStart atomic.Int64
+			for k := 0; k < 1+round%3; k++ {
+				e.pool.Sched(bg, verif.PoolEvent{Caller: "verif.tick", Fn: func(context.Context) error {
+					ticks.Add(1)
+					lastStart.Store(e.now())
+					return nil
+				}}, time.Duration(1+round%7)*time.Microsecond)
+			}
+			for i := 0; i < (round%16)*50; i++ {
+				runtime.Gosched()
+			}
+			e.pool.Stop()
+			stopRet := e.now()
+			time.Sleep(50 * time.Microsecond)
+			if ls := lastStart.Load(); ls > stopRet {
+				c.Violate("job-started-after-stop scheduled", fmt.Sprintf("a scheduled job started %d ns after Stop had returned", ls-stopRet), map[string]any{"pattern": pat, "seed": seed, "case": idx, "round": round})
+				return c
+			}
+			c.Count("scheduled_ticks_run", ticks.Load())
 		}
 	case "run-run-concurrent":
 		par(func() { e.pool.Run(bg) }, func() { e.pool.Run(bg) })
